@@ -427,7 +427,7 @@ func vh_C04_L6_agreement_follows_init_ack() {
 	ack.initiateTag, ack.initialTSN = 1+nondetU32()%0xfffffffe, nondetU32()
 	ack.numOutboundStreams, ack.numInboundStreams = 10, 10
 	ack.advertisedReceiverWindowCredit = 1 << 16
-	setSupportedExtensions(&ack.chunkInitCommon, il2)
+	vSetSupportedExtensionsSplit(&ack.chunkInitCommon, il2, vPick(3))
 	ack.params = append(ack.params, &paramStateCookie{cookie: nondetBytes(4)})
 	rawAck, aerr := (&packet{sourcePort: 5000, destinationPort: 5000, verificationTag: a.myVerificationTag, chunks: []chunk{ack}}).marshal(true)
 	vassert(aerr == nil, "INIT ACK marshals")
@@ -466,4 +466,21 @@ func vh_C04_L2_cookie_ack_only_in_cookie_echoed() {
 	vassert(len(a.handshakeCompletedCh) == 0, "and hands no result to a connect call")
 	vassert(a.t1Init.isRunning() == t1, "and leaves the INIT retransmissions as they were")
 	vcover("end")
+}
+
+// vSetSupportedExtensionsSplit lists the supported chunk types like setSupportedExtensions,
+// in one Supported Extensions parameter (split 0) or spread over two of them, the interleaving
+// pair first (1) or last (2): what a peer supports is the union of everything it lists.
+func vSetSupportedExtensionsSplit(init *chunkInitCommon, il bool, split int) {
+	if split == 0 || !il {
+		setSupportedExtensions(init, il)
+		return
+	}
+	base := &paramSupportedExtensions{ChunkTypes: []chunkType{ctReconfig, ctForwardTSN}}
+	ild := &paramSupportedExtensions{ChunkTypes: []chunkType{ctIData, ctIForwardTSN}}
+	if split == 1 {
+		init.params = append(init.params, ild, base)
+	} else {
+		init.params = append(init.params, base, ild)
+	}
 }
